@@ -36,6 +36,8 @@
 #include "Db/Db.hpp"
 #include "Db/DbGrid.hpp"
 #include "Drifts/ADrift.hpp"
+#include "Drifts/DriftF.hpp"
+#include "Drifts/DriftM.hpp"
 #include "Enum/ECov.hpp"
 #include "Geometry/BiTargetCheckDistance.hpp"
 #include "Geometry/GeometryHelper.hpp"
@@ -126,7 +128,9 @@ inline std::string fp_diff(const Fp& a, const Fp& b, std::string* group)
 // ---------------------------------------------------------------------------------------------
 struct ClassDef
 {
-  std::string name;                                                     // class name == neutral file tag
+  std::string name;                                                     // class name (registry key)
+  std::string keyname;                                                  // name used in finding keys (defaults to name)
+  bool aux = false;                                                     // additional menu of a class already registered (skipped by tag_refusal)
   std::function<Space(bool thorough)> space;                            // builder menu
   std::function<ASerializable*(const std::vector<int>& idx)> build;     // new object (caller deletes) or nullptr = combination not admissible
   std::function<ASerializable*()> fresh;                                // empty object to deserialize into
@@ -191,9 +195,11 @@ inline bool read_file(const std::string& path, std::string& content)
 template<class T> struct Reg
 {
   ClassDef d;
-  Reg(const std::string& name)
+  Reg(const std::string& name, const std::string& keyname = "")
   {
     d.name = name;
+    d.keyname = keyname.empty() ? name : keyname;
+    d.aux = !keyname.empty();
     if constexpr (std::is_default_constructible_v<T>) d.fresh = []() -> ASerializable* { return new T(); };
   }
   Reg& fresh(std::function<T*()> f) { d.fresh = [f]() -> ASerializable* { return f(); }; return *this; }
@@ -295,10 +301,16 @@ inline void register_db()
   Reg<Db>("Db")
     .space([](bool th) {
       Space s;
-      s.axis("ndim", 3).axis("nvar", 3).axis("nech", th ? 3 : 2).axis("vset", th ? 4 : 3).axis("lset", 3 + 29).axis("nset", th ? 3 : 2);
+      s.axis("ndim", 3).axis("nvar", 3).axis("nech", 4).axis("vset", th ? 4 : 3).axis("lset", 3 + 29).axis("nset", th ? 3 : 2);
       return s; })
     .build([](const std::vector<int>& x) -> Db* {
-      int ndim = x[0] + 1, nvar = x[1], nech = std::vector<int>{1, 3, 2}[x[2]], vset = x[3], lset = x[4], nset = x[5];
+      int ndim = x[0] + 1, nvar = x[1], nech = std::vector<int>{1, 3, 2, 0}[x[2]], vset = x[3], lset = x[4], nset = x[5];
+      if (x[2] == 3)
+      {
+        // the empty Db (0 columns, 0 samples: the "ncol > 0" branch of the reader not taken), once
+        if (x[0] || x[1] || x[3] || x[4] || x[5]) return nullptr;
+        return new Db();
+      }
       std::vector<std::vector<double>> cols;
       std::vector<std::string> names, locs;
       int extra = lset >= 2 ? 1 : 0;
@@ -400,7 +412,15 @@ inline void model_getters(const Model& m, Fp& fp)
     for (int i = 0; i < nvar; i++) for (int j = 0; j < nvar; j++) fp.D("sill:sill" + p + "(" + std::to_string(i) + "," + std::to_string(j) + ")", m.getSill(ic, i, j));
   }
   fp.I("drift:ndrift", m.getDriftNumber());
-  for (int il = 0; il < m.getDriftNumber(); il++) fp.S("drift:name#" + std::to_string(il), m.getDrift(il)->getDriftName());
+  for (int il = 0; il < m.getDriftNumber(); il++)
+  {
+    fp.S("drift:name#" + std::to_string(il), m.getDrift(il)->getDriftName());
+    // exponents without the trailing zeros (x1 in 2-D is stored as {1,0} by the API and as {1} by the reader: same monomial)
+    VectorInt pw = m.getDrift(il)->getPowers();
+    while (!pw.empty() && pw[pw.size() - 1] == 0) pw.resize(pw.size() - 1);
+    fp.VI("drift:powers#" + std::to_string(il), pw);
+    fp.I("drift:rankfex#" + std::to_string(il), m.getDrift(il)->getRankFex());
+  }
   for (int i = 0; i < nvar; i++) fp.D("mean:mean" + std::to_string(i), m.getMean(i));
   for (int i = 0; i < nvar; i++) for (int j = 0; j < nvar; j++) fp.D("covar0:c0(" + std::to_string(i) + "," + std::to_string(j) + ")", m.getCovar0(i, j));
 }
@@ -423,12 +443,27 @@ inline void model_probe(Model& m, Fp& fp)
       for (int i = 0; i < nvar; i++) for (int j = 0; j < nvar; j++)
         fp.B(grp + ":cov(p" + std::to_string(a) + ",p" + std::to_string(b) + ")[" + std::to_string(i) + "," + std::to_string(j) + "]", m.eval(p1, p2, i, j), 1.);
     }
+  // drift functions on a probe Db (coordinates P, three external drift columns)
+  if (m.getDriftNumber() > 0)
+  {
+    std::vector<std::vector<double>> cols; std::vector<std::string> names, locs;
+    for (int d = 0; d < ndim; d++) { std::vector<double> c; for (int a = 0; a < 5; a++) c.push_back(P[a][d] + 0.5); cols.push_back(c); names.push_back("x" + std::to_string(d + 1)); locs.push_back("x" + std::to_string(d + 1)); }
+    for (int k = 0; k < 3; k++) { std::vector<double> c; for (int a = 0; a < 5; a++) c.push_back(1. + k + 0.25 * a * (k + 1)); cols.push_back(c); names.push_back("f" + std::to_string(k + 1)); locs.push_back("f" + std::to_string(k + 1)); }
+    std::unique_ptr<Db> db(make_db(cols, names, locs));
+    for (int il = 0; il < m.getDriftNumber(); il++)
+      for (int a = 0; a < 5; a++)
+        fp.B("behaviour-drift:drift" + std::to_string(il) + "(p" + std::to_string(a) + ")", m.evalDrift(db.get(), a, il), 1.);
+  }
 }
 struct CovMenu { ECov type; double param; };
 inline const std::vector<CovMenu>& cov_menu()
 {
   static const std::vector<CovMenu> v = {{ECov::SPHERICAL, 1.}, {ECov::NUGGET, 1.}, {ECov::EXPONENTIAL, 1.}, {ECov::MATERN, 0.5}, {ECov::GAUSSIAN, 1.},
-                                          {ECov::CUBIC, 1.}, {ECov::MATERN, 1.75}, {ECov::COSEXP, 2.}, {ECov::LINEAR, 1.}, {ECov::POWER, 1.5}, {ECov::STABLE, 0.75}};
+                                          {ECov::CUBIC, 1.}, {ECov::MATERN, 1.75}, {ECov::COSEXP, 2.}, {ECov::LINEAR, 1.}, {ECov::POWER, 1.5}, {ECov::STABLE, 0.75},
+                                          // thorough: every other key of the enum that can live in RN (the reader decodes the type by value)
+                                          {ECov::SINCARD, 1.}, {ECov::BESSELJ, 1.}, {ECov::GAMMA, 1.5}, {ECov::CAUCHY, 1.5}, {ECov::ORDER1_GC, 1.}, {ECov::SPLINE_GC, 1.},
+                                          {ECov::ORDER3_GC, 1.}, {ECov::ORDER5_GC, 1.}, {ECov::COSINUS, 1.}, {ECov::TRIANGLE, 1.}, {ECov::REG1D, 1.}, {ECov::PENTA, 1.},
+                                          {ECov::SPLINE2_GC, 1.}, {ECov::STORKEY, 1.}, {ECov::WENDLAND0, 1.}, {ECov::WENDLAND1, 1.}, {ECov::WENDLAND2, 1.}};
   return v;
 }
 inline void register_model()
@@ -436,7 +471,7 @@ inline void register_model()
   Reg<Model>("Model")
     .space([](bool th) {
       Space s;
-      s.axis("ndim", 3).axis("nvar", th ? 3 : 2).axis("cov1", th ? (int)cov_menu().size() : 6).axis("cov2", th ? 4 : 3).axis("aniso", 4).axis("drift", 4).axis("extra", th ? 3 : 2);
+      s.axis("ndim", 3).axis("nvar", th ? 3 : 2).axis("cov1", th ? (int)cov_menu().size() : 6).axis("cov2", 6).axis("aniso", 4).axis("drift", 6).axis("extra", th ? 3 : 2);
       return s; })
     .build([](const std::vector<int>& x) -> Model* {
       int ndim = x[0] + 1, nvar = x[1] + 1, c1 = x[2], c2 = x[3], an = x[4], dr = x[5], ex = x[6];
@@ -457,10 +492,14 @@ inline void register_model()
       if (c2 == 1) add(1, 1, 0);            // + nugget
       if (c2 == 2) add(2, 1, an ? 1 : 0);   // + exponential (anisotropic without rotation when the first one is anisotropic)
       if (c2 == 3) add(6, 2, an);
-      if (m->getCovaNumber() < 1) { delete m; return nullptr; }
+      if (c2 == 4) { if (c1 || an) { delete m; return nullptr; } m->delAllCovas(); }          // no basic structure at all (count 0), once
+      if (c2 == 5) { add(1, 1, 0); add(2, 2, an ? 1 : 0); }                                   // three basic structures
+      if (m->getCovaNumber() < 1 && c2 != 4) { delete m; return nullptr; }
       if (dr == 1) m->setDriftIRF(0);
       if (dr == 2) m->setDriftIRF(1);
       if (dr == 3) m->setDriftIRF(1, 1);
+      if (dr == 4) m->setDriftIRF(2);
+      if (dr == 5) m->setDriftIRF(0, 3);     // three external drifts (ranks 0..2)
       if (dr == 0) for (int i = 0; i < nvar; i++) m->setMean(i == 0 ? -1.5 : 1. / 3., i);
       if (ex >= 1) m->setField(ex == 1 ? 12.5 : 1e6);
       if (ex == 2) for (int i = 0; i < nvar; i++) for (int j = 0; j < nvar; j++) m->setCovar0(i, j, i == j ? 3. : 0.5);
@@ -481,6 +520,60 @@ inline void register_model()
       return std::string(""); })
     .nontrivial([](const std::vector<int>& x) { return x[4] >= 1 || x[5] >= 1 || x[3] >= 1; })
     .corpus({{1, 0, 0, 0, 0, 0, 0}, {1, 1, 2, 1, 2, 2, 0}})
+    .done();
+}
+
+// all exponent vectors of total degree 1..3 in ndim dimensions, lexicographic
+inline std::vector<VectorInt> monomials(int ndim, int maxdeg)
+{
+  std::vector<VectorInt> v;
+  int n = maxdeg + 1, tot = 1; for (int d = 0; d < ndim; d++) tot *= n;
+  for (int i = 1; i < tot; i++)
+  {
+    VectorInt p(ndim); int r = i, deg = 0;
+    for (int d = 0; d < ndim; d++) { p[d] = r % n; r /= n; deg += p[d]; }
+    if (deg >= 1 && deg <= maxdeg) v.push_back(p);
+  }
+  return v;
+}
+// drift-list menu of ModelDrift: one entry = list of (powers | external rank)
+struct DriftSpec { VectorInt powers; int fex = -1; };
+inline std::vector<std::vector<DriftSpec>> drift_sets(int ndim)
+{
+  std::vector<std::vector<DriftSpec>> S;
+  auto mono = monomials(ndim, 3);
+  for (auto& p : mono) S.push_back({DriftSpec{p, -1}});                                   // every single monomial of degree <= 3
+  for (int k = 1; k <= 3; k++) { std::vector<DriftSpec> l; for (auto& p : monomials(ndim, k)) l.push_back({p, -1}); S.push_back(l); }   // complete polynomial of degree k
+  { std::vector<DriftSpec> l; for (auto& p : mono) { int nz = 0; for (int e : p) nz += e > 0; if (nz >= 2) l.push_back({p, -1}); } if (!l.empty()) S.push_back(l); }   // all mixed monomials
+  for (int r = 0; r < 3; r++) S.push_back({DriftSpec{VectorInt(), r}});                   // one external drift of rank r
+  S.push_back({DriftSpec{VectorInt(), 0}, DriftSpec{VectorInt(), 1}, DriftSpec{VectorInt(), 2}});
+  { std::vector<DriftSpec> l; for (auto& p : mono) l.push_back({p, -1}); l.push_back({VectorInt(), 1}); l.push_back({VectorInt(), 0}); S.push_back(l); }   // everything
+  return S;
+}
+inline void register_model_drift()
+{
+  Reg<Model>("ModelDrift", "Model")
+    .space([](bool) { Space s; s.axis("ndim", 3).axis("nvar", 2).axis("driftset", (int)drift_sets(3).size()).axis("uc", 2).axis("cov", 2); return s; })
+    .build([](const std::vector<int>& x) -> Model* {
+      int ndim = x[0] + 1, nvar = x[1] + 1;
+      auto S = drift_sets(ndim);
+      if (x[2] >= (int)S.size()) return nullptr;
+      if (x[4] == 1 && ndim == 1) return nullptr;
+      Model* m = new Model(CovContext(nvar, ndim));
+      VectorDouble sills(nvar * nvar, 0.25); for (int i = 0; i < nvar; i++) sills[i * nvar + i] = 1. + i;
+      if (x[4] == 0) m->addCovFromParam(ECov::SPHERICAL, 1.5, 1., 1., VectorDouble(), sills, VectorDouble(), true);
+      else { VectorDouble r = {2., 0.5, 4.}; r.resize(ndim); VectorDouble a = {30., 0., 0.}; a.resize(ndim); m->addCovFromParam(ECov::EXPONENTIAL, 1.5, 1., 1., r, sills, a, true); }
+      if (x[3]) { DriftM uc; m->addDrift(&uc); }
+      for (auto& d : S[x[2]])
+      {
+        if (d.fex >= 0) { DriftF f(d.fex); m->addDrift(&f); }
+        else { DriftM dm(d.powers); m->addDrift(&dm); }
+      }
+      return m; })
+    .fromNF([](const std::string& p) { return Model::createFromNF(p, false); })
+    .getters([](const Model& m, Fp& fp) { model_getters(m, fp); })
+    .probe([](Model& m, Fp& fp) { model_probe(m, fp); })
+    .nontrivial([](const std::vector<int>&) { return true; })
     .done();
 }
 
@@ -628,7 +721,7 @@ inline void ring(int shape, int vset, VectorDouble& x, VectorDouble& y)
 inline void register_polygons()
 {
   Reg<Polygons>("Polygons")
-    .space([](bool th) { Space s; s.axis("npol", 3).axis("shape1", 4).axis("shape2", th ? 4 : 2).axis("zlim", 4).axis("shift", 2); return s; })
+    .space([](bool th) { Space s; s.axis("npol", 4).axis("shape1", 4).axis("shape2", th ? 4 : 2).axis("zlim", 4).axis("shift", 2); return s; })
     .build([](const std::vector<int>& x) -> Polygons* {
       int npol = x[0];
       if (npol == 0 && (x[1] || x[2] || x[3] || x[4])) return nullptr;
@@ -637,7 +730,7 @@ inline void register_polygons()
       for (int k = 0; k < npol; k++)
       {
         VectorDouble px, py;
-        ring(k == 0 ? x[1] : x[2], x[4], px, py);
+        ring(k == 0 ? x[1] : k == 1 ? x[2] : (x[1] + x[2] + 1) % 4, x[4], px, py);
         double zmin = TEST, zmax = TEST;
         if (x[3] == 1) { zmin = -1.5; zmax = 2.; }
         if (x[3] == 2) { zmin = 0.; }
@@ -674,6 +767,7 @@ inline void register_batch1()
   register_db();
   register_dbgrid();
   register_model();
+  register_model_drift();
   register_neigh();
   register_table();
   register_polygons();
@@ -741,12 +835,13 @@ inline void register_vario()
     .fresh([]() { VarioParam vp; return new Vario(vp); })
     .space([](bool th) {
       Space s;
-      s.axis("ndim", 3).axis("nvar", 2).axis("ndir", 2).axis("calc", th ? 4 : 3).axis("dirkind", 3).axis("option", 5).axis("undef", 2);
+      s.axis("ndim", 3).axis("nvar", 2).axis("ndir", 3).axis("calc", th ? 4 : 3).axis("dirkind", 3).axis("option", 6).axis("undef", 2);
       return s; })
     .build([](const std::vector<int>& x) -> Vario* {
       int ndim = x[0] + 1, nvar = x[1] + 1, ndir = x[2] + 1, calc = x[3], kind = x[4], opt = x[5], und = x[6];
       if (kind == 2 && (ndim == 1 || opt != 0 || calc >= 2)) return nullptr;      // grid directions: 2-D/3-D grids, no extra option (covariogram/madogram on a grid crash in compute())
-      if (ndir == 2 && ndim == 1) return nullptr;
+      if (ndir >= 2 && ndim == 1) return nullptr;
+      if (ndir == 3 && (ndim != 3 || kind != 1)) return nullptr;   // three directions: along the axes of a 3-D space
       SpaceRN sp(ndim);
       VarioParam vp(opt == 4 ? 2. : 0.);
       std::unique_ptr<Db> db;
@@ -769,15 +864,16 @@ inline void register_vario()
       else
       {
         db.reset(vario_db(ndim, nvar, und != 0));
+        if (opt == 5) { VectorDouble codes = {1, 1, 2, 1, 2, 2, 1}; db->addColumns(codes, "code", ELoc::C, 0); }   // selection by code (option 1, tolerance 0.5)
         for (int id = 0; id < ndir; id++)
         {
           VectorDouble codir;
           double tolang = 90.;
-          if (kind == 1) { codir.resize(ndim, 0.); codir[id % ndim] = 1.; if (id == 1) codir[0] = 1.; tolang = id == 0 ? 45. : 22.5; }
+          if (kind == 1) { codir.resize(ndim, 0.); codir[id % ndim] = 1.; if (id == 1 && ndir < 3) codir[0] = 1.; tolang = id == 0 ? 45. : 22.5; }
           double bench = opt == 1 && ndim >= 2 ? 0.75 : TEST, cyl = opt == 2 && ndim >= 2 ? 1.25 : TEST;
           VectorDouble breaks;
           if (opt == 3) breaks = {0., 0.75, 2., 4.5};
-          DirParam dp(id == 0 ? 3 : 2, id == 0 ? 1. : 1.5, id == 0 ? 0.5 : 0.25, tolang, 0, 0, bench, cyl, 0., breaks, codir, TEST, &sp);
+          DirParam dp(id == 0 ? 3 : 2, id == 0 ? 1. : 1.5, id == 0 ? 0.5 : 0.25, tolang, opt == 5 ? 1 : 0, 0, bench, cyl, opt == 5 ? 0.5 : 0., breaks, codir, TEST, &sp);
           vp.addDir(dp);
         }
         if ((opt == 1 || opt == 2) && ndim < 2) return nullptr;
@@ -835,9 +931,10 @@ inline void anam_probe(AAnam& a, Fp& fp, bool cont)
 inline void register_anam()
 {
   Reg<AnamHermite>("AnamHermite")
-    .space([](bool th) { Space s; s.axis("mode", 3).axis("nbpoly", th ? 4 : 3).axis("data", 2).axis("flagBound", 2).axis("rcoef", 2); return s; })
+    .space([](bool th) { Space s; s.axis("mode", 3).axis("nbpoly", 5).axis("data", 2).axis("flagBound", 2).axis("rcoef", 2); return s; })
     .build([](const std::vector<int>& x) -> AnamHermite* {
-      int nb = std::vector<int>{3, 8, 1, 20}[x[1]];
+      int nb = std::vector<int>{3, 8, 1, 20, 0}[x[1]];
+      if (nb == 0 && x[0] != 0) return nullptr;   // no polynomial: hand-set mode only (count 0)
       AnamHermite* a = AnamHermite::create(nb, x[3] == 0, 1.);
       if (x[0] == 0)
       {
@@ -865,9 +962,10 @@ inline void register_anam()
     .done();
 
   Reg<AnamEmpirical>("AnamEmpirical")
-    .space([](bool) { Space s; s.axis("ndisc", 3).axis("data", 2).axis("sigma2e", 3).axis("mode", 2); return s; })
+    .space([](bool) { Space s; s.axis("ndisc", 4).axis("data", 2).axis("sigma2e", 3).axis("mode", 2); return s; })
     .build([](const std::vector<int>& x) -> AnamEmpirical* {
-      int nd = std::vector<int>{5, 12, 2}[x[0]];
+      int nd = std::vector<int>{5, 12, 2, 0}[x[0]];
+      if (nd == 0 && x[3] == 0) return nullptr;   // count 0: hand-set mode only
       double s2 = std::vector<double>{TEST, 0.25, 0.}[x[2]];
       AnamEmpirical* a = AnamEmpirical::create(nd, s2);
       if (x[3] == 0)
@@ -897,7 +995,7 @@ inline void register_anam()
       // built through the setters (the fitting routine of this class crashes on its own, which is not a serialisation matter)
       AnamDiscreteDD* a = AnamDiscreteDD::create(x[2] ? 1.5 : 1., x[3] ? 0.25 : 0.);
       VectorDouble zc = std::vector<VectorDouble>{{1.}, {0.75, 2.}, {0.5, 1.25, 3.}}[x[0]];
-      int nc = (int)zc.size(), ncl = nc + 1, ne = 4;
+      int nc = (int)zc.size(), ncl = nc + 1, ne = x[1] ? 4 : 3;
       a->setNCut(nc); a->setNElem(ne); a->setZCut(zc);
       VectorDouble st; for (int i = 0; i < ncl * ne; i++) st.push_back(x[1] ? 1. / (3. + i) : 0.25 * i);
       a->setStats(st);
@@ -949,7 +1047,7 @@ inline void mesh_probe(AMesh& m, Fp& fp)
 inline void register_mesh()
 {
   Reg<MeshETurbo>("MeshETurbo")
-    .space([](bool th) { Space s; s.axis("ndim", 3).axis("nxset", 2).axis("geom", th ? 3 : 2).axis("rot", 2).axis("polar", 2).axis("mask", 2); return s; })
+    .space([](bool th) { Space s; s.axis("ndim", 3).axis("nxset", 2).axis("geom", th ? 3 : 2).axis("rot", 2).axis("polar", 2).axis("mask", 3); return s; })
     .build([](const std::vector<int>& x) -> MeshETurbo* {
       int ndim = x[0] + 1;
       static const int NX[2][3] = {{3, 2, 2}, {2, 4, 3}};
@@ -965,7 +1063,7 @@ inline void register_mesh()
       int n = g->getSampleNumber();
       VectorDouble sel(n, 1.); sel[0] = 0.; if (n > 3) sel[n - 1] = 0.;
       g->addColumns(sel, "sel", ELoc::SEL, 0);
-      MeshETurbo* m = MeshETurbo::createFromGrid(g.get(), x[4] != 0, false, 1);
+      MeshETurbo* m = MeshETurbo::createFromGrid(g.get(), x[4] != 0, false, x[5] == 2 ? 0 : 1);   // mask 1: map storage, mask 2: array storage
       if (m != nullptr && (m->getNApices() <= 0 || m->getNMeshes() <= 0)) { delete m; return nullptr; }
       return m; })
     .fromNF([](const std::string& p) { return MeshETurbo::createFromNF(p, false); })
@@ -975,6 +1073,7 @@ inline void register_mesh()
       for (int d = 0; d < m.getNDim(); d++) { fp.I("grid:nx" + std::to_string(d), g.getNX(d)); fp.D("grid:dx" + std::to_string(d), g.getDX(d)); fp.D("grid:x0" + std::to_string(d), g.getX0(d)); }
       fp.VD("grid:rotmat", g.getRotMat(), 1.);
       fp.I("polar:polarized", m._isPolarized);
+      fp.I("mask:mode", m._meshIndirect.getMode());
       fp.VI("mask:meshranks", m._meshIndirect.getRelRanks()); fp.VI("mask:gridranks", m._gridIndirect.getRelRanks()); })
     .probe([](MeshETurbo& m, Fp& fp) { mesh_probe(m, fp); })
     .nontrivial([](const std::vector<int>& x) { return x[3] || x[4] || x[5]; })
